@@ -155,5 +155,17 @@ CHECKS = {
              "from the zero curve (not offset-equivariant in its first pass) are declined.",
         technique="static analysis: invariants of extracted coefficients, syntactic use-shape rule over the syntax tree",
     ),
+    "C12": dict(
+        category=OTHER,
+        text="Structural clauses behind laziness/chunking/threading independence: all 20 accessor->kernel sites bind by R-BIND with dask='parallelized', time as core "
+             "dimension of the data and no allow_rechunk (a chunked time axis is refused); the time-first autocorr path rechunks time into one block before dropping it; "
+             "10 dtype declarations equal the dtype the kernel writes (known finding D8: three parameter-dependent metas); all 35 kernels are pure (no global/nonlocal, no "
+             "module-level mutable reads) and never store into an input array or a view of one; the six 3-D drivers carry no scalar or scratch-array content from one "
+             "pixel to the next (reaching definitions + full-overwrite rule); the prange body writes only body-allocated arrays or through the prange index and assigns "
+             "no outer scalar; lazycompile's cell is filled only while empty with the completed object, never reset, and the call goes through it.",
+        note="Trusted: xarray refuses a chunked core dimension without allow_rechunk; Numba's compiler lock serialises racing first calls; dask map_blocks semantics. "
+             "Value equality between schedulers is declined.",
+        technique="static analysis: call-site table rules, reaching definitions on the CFG, alias/ownership (read-only, prange) rules over the syntax tree",
+    ),
 }
 NOT_APPLICABLE = {}
